@@ -211,7 +211,9 @@ def snap_location(loc):
                                                             "y_translation": f(g.y_translation),
                                                             "z_rotation": f(g.z_rotation), "scaling": f(g.scaling)},
             "environment": ("n",) if e is None else {"time": ("n",) if e.time is None else [leaf(e.time.hours),
-                                                                                           leaf(e.time.minutes)],
+                                                                                           leaf(e.time.minutes)] + (
+                [leaf(getattr(e.time, "day", None)), leaf(getattr(e.time, "month", None)), leaf(getattr(e.time, "year", None))]
+                if any(getattr(e.time, a_, None) is not None for a_ in ("day", "month", "year")) else []),
                                                      "time_of_day": leaf(e.time_of_day), "weather": leaf(e.weather),
                                                      "underground": leaf(e.underground)}}
 
